@@ -23,6 +23,14 @@ class ToolError(Exception):
     pass
 
 
+class LibraryPanic(Exception):
+    """the library under test panicked in a call no driver guards: data, reported as a violation"""
+    def __init__(self, where, args):
+        Exception.__init__(self, where)
+        self.where = where
+        self.args_ = args
+
+
 def log(*a):
     print(*a, file=sys.stderr, flush=True)
 
@@ -71,6 +79,14 @@ def run_harness(binp, args, timeout=1800, env=None):
     if env:
         e.update(env)
     p = subprocess.run([binp] + args, stdout=subprocess.PIPE, stderr=subprocess.PIPE, text=True, timeout=timeout, env=e)
+    if p.returncode == 4:
+        where = ""
+        for line in p.stdout.splitlines():
+            if line.startswith("UNCAUGHT-PANIC "):
+                where = line[len("UNCAUGHT-PANIC "):].strip()
+        if "ffuzzy" in where and "/verif/" not in where and "harness/src" not in where:
+            raise LibraryPanic(where, list(args))
+        raise ToolError("harness %s panicked at %s (not in the library under test)" % (args[:2], where))
     if p.returncode != 0:
         log(p.stderr[-4000:])
         raise ToolError("harness %s exited %d" % (args[:2], p.returncode))
